@@ -396,6 +396,43 @@ def sort(a, **kw):
     return a[argsort(a)]
 
 
+def append(a, b, axis=None):
+    xs = list(a.data) if isinstance(a, Arr) else list(a)
+    ys = list(b.data) if isinstance(b, Arr) else (list(b) if isinstance(b, (list, tuple)) else [b])
+    return Arr(xs + ys, getattr(a, 'dtype', None))
+
+
+def concatenate(arrs, axis=0):
+    out = []
+    for a in arrs:
+        out += list(a.data) if isinstance(a, Arr) else list(a)
+    return Arr(out, getattr(arrs[0], 'dtype', None))
+
+
+def copy(a):
+    return a.copy()
+
+
+def cumsum(a):
+    out, t = [], 0
+    for v in a.data:
+        t = t + v
+        out.append(t)
+    return Arr(out, a.dtype)
+
+
+def diff(a):
+    return Arr([a.data[i + 1] - a.data[i] for i in range(len(a.data) - 1)], a.dtype)
+
+
+def ones(n, dtype=None):
+    return Arr([1] * int(n), dtype)
+
+
+def zeros_like(a, dtype=None):
+    return Arr([0] * len(a), dtype or a.dtype)
+
+
 def fromiter(it, dtype=None, count=-1):
     return Arr(list(it), dtype)
 
